@@ -4,6 +4,7 @@ import (
 	"bytes"
 	"crypto/elliptic"
 	"crypto/sha256"
+	"encoding/binary"
 	"encoding/hex"
 	"fmt"
 	"os"
@@ -281,10 +282,21 @@ func c18Reject(cs *vrt.Case, r *vrt.Rng, cv elliptic.Curve) {
 	}
 	consume := func(kind int, data []byte, curve elliptic.Curve) (out res, pan *vrt.PanicInfo) {
 		pan = vrt.Guard(func() {
-			gs, _ := sha2pc.DecodeGarblerSession(cv, s1.gsb)
-			es, _ := sha2pc.DecodeEvaluatorSession(cv, s1.esb)
-			m2, _ := sha2pc.DecodeRound2(cv, s1.r2b)
-			m3, _ := sha2pc.DecodeRound3(s1.r3b)
+			// fresh copies of what the consuming round needs besides the object under test
+			var gs *sha2pc.GarblerSession
+			var es *sha2pc.EvaluatorSession
+			var m2 sha2pc.Round2Payload
+			var m3 sha2pc.Round3Payload
+			switch kind {
+			case 1:
+				gs, _ = sha2pc.DecodeGarblerSession(cv, s1.gsb)
+			case 2:
+				es, _ = sha2pc.DecodeEvaluatorSession(cv, s1.esb)
+			case 3:
+				m2, _ = sha2pc.DecodeRound2(cv, s1.r2b)
+			case 4:
+				m3, _ = sha2pc.DecodeRound3(s1.r3b)
+			}
 			switch kind {
 			case 0: // round1 -> EvaluatorRound2
 				m, err := sha2pc.DecodeRound1(curve, data)
@@ -462,6 +474,47 @@ func c18Reject(cs *vrt.Case, r *vrt.Rng, cv elliptic.Curve) {
 			cs.Count("mutations_rejected_in_"+out.stage, 1)
 		} else {
 			cs.Count("mutations_accepted", 1)
+		}
+	}
+	// hostile length fields: the encodings frame their parts with uvarint
+	// lengths; a well-formed but absurd length (2^31 .. 2^64-1, the values at
+	// which int conversions change sign or wrap) is spliced in at every offset
+	// of the header area and at sampled offsets, replacing the uvarint that
+	// starts there. Decoders and consuming rounds must answer with an error.
+	bigs := []uint64{1 << 63, 1<<64 - 1, 1<<63 - 1, 1 << 62, 1 << 32, 1<<32 - 1, 1 << 31, 1<<31 - 1, 1 << 24}
+	for k, enc := range objs1 {
+		if k == 2 {
+			continue // round 3 has a fixed layout without length fields
+		}
+		var offs []int
+		for o := 0; o < min(len(enc), 56); o++ {
+			offs = append(offs, o)
+		}
+		for i := 0; i < 12; i++ {
+			offs = append(offs, r.Intn(len(enc)))
+		}
+		for _, o := range offs {
+			_, skip := binary.Uvarint(enc[o:])
+			if skip <= 0 {
+				skip = 1
+			}
+			v := bigs[r.Intn(len(bigs))]
+			if o%3 == 0 {
+				v = bigs[(o/3)%2] // 2^63 and 2^64-1 systematically
+			}
+			var lb [binary.MaxVarintLen64]byte
+			n := binary.PutUvarint(lb[:], v)
+			d := append(append(append([]byte(nil), enc[:o]...), lb[:n]...), enc[min(len(enc), o+skip):]...)
+			_, pan := consume(k, d, cv)
+			cs.Evals++
+			cs.Count("hostile_length_fields", 1)
+			if pan != nil && pan.InMPC {
+				cs.Violate("C18|mutation-panic|"+kinds[k]+"|"+pan.Frame, fmt.Sprintf("%s with the length %d spliced in at offset %d made the decoder or the consuming round panic: %s", kinds[k], v, o, pan.Value),
+					map[string]any{"kind": kinds[k], "offset": o, "length": fmt.Sprint(v), "stack": pan.Stack})
+				break
+			} else if pan != nil {
+				cs.Inconc("harness panic: " + pan.Value + "\n" + pan.Stack)
+			}
 		}
 	}
 	c18Round3Integrity(cs, r, cv, a, b, &s1)
